@@ -74,6 +74,8 @@ def step (line : String) : String :=
   | "c05.output_lcov" :: args => handleOutputLcov args
   | "c05.output_lcov_dm" :: args => handleOutputLcovDm args
   | "run.all" :: args => Grcov.Drv.RunAll.handleRunAll args
+  | "run.html" :: args => Grcov.Drv.RunAll.handleRunHtml args
+  | "run.multi" :: args => Grcov.Drv.RunAll.handleRunMulti args
   | "c03.htmlb" :: args => Grcov.Drv.C03Html.handle args
   | "c03.lcov" :: args => Grcov.Drv.FnOrder.handleLcov args
   | "c14.text.lcov" :: args => Grcov.Drv.C14Text.handleLcov args
